@@ -448,3 +448,90 @@ Example task_raise_class_nonvacuous :
   = ([RUnit; RUnit; RVal (VInt 7); RNoError], [RUnit],
      [(1, Ok (VInt 7)); (3, Ok (VInt 7)); (2, Ok (VInt 7))], 1, [1; 3; 2]).
 Proof. reflexivity. Qed.
+
+(* ---- the CLASS of the Exception the task's body raises does not matter (up to PEP 479) ---- *)
+Definition tpstate (f : xcls -> xcls) (s : tstate) : tstate :=
+  tmk (tgen s) (recls_pout f (tfin s)) (tout s) (truns s) (tsubs s) (tlog s) (tinner s).
+
+Lemma outcome_of_pout_recls f p : gen_cls_ok f -> outcome_of_pout (recls_pout f p) = outcome_of_pout p.
+Proof. intros G. destruct p; cbn; auto. now rewrite G. Qed.
+
+Lemma tcomplete_tpstate f s o : tcomplete (tpstate f s) o = tpstate f (tcomplete s o).
+Proof. reflexivity. Qed.
+
+Lemma istep_tpstate f c s o :
+  istep c (tpstate f s) o = (tpstate f (fst (istep c s o)), snd (istep c s o)).
+Proof.
+  destruct o; cbn [istep]; change (tout (tpstate f s)) with (tout s);
+    try (destruct (tout s); rewrite ?tcomplete_tpstate; reflexivity); try reflexivity.
+Qed.
+
+Lemma irun_tpstate f c ops : forall s, irun c (tpstate f s) ops = tpstate f (irun c s ops).
+Proof.
+  induction ops as [|o ops IH]; intros s; cbn [irun]; auto.
+  rewrite istep_tpstate. destruct (istep c s o) as [s1 r]. cbn [fst snd].
+  change (push_inner (tpstate f s1) r) with (tpstate f (push_inner s1 r)). apply IH.
+Qed.
+
+Lemma exec_tpstate f ph : gen_cls_ok f -> forall s, exec (tpstate f s) ph = tpstate f (exec s ph).
+Proof.
+  intros G. induction ph as [|p ph IH]; intros s; cbn [exec].
+  - change (tfin (tpstate f s)) with (recls_pout f (tfin s)). rewrite outcome_of_pout_recls by exact G.
+    apply tcomplete_tpstate.
+  - rewrite irun_tpstate.
+    change (tout (tpstate f (irun (pclean p) s (pinner p)))) with (tout (irun (pclean p) s (pinner p))).
+    destruct (tout (irun (pclean p) s (pinner p))); auto.
+    destruct (pdep p); [apply IH|apply tcomplete_tpstate].
+Qed.
+
+Lemma tcompute_tpstate f s : gen_cls_ok f -> tcompute (tpstate f s) = tpstate f (tcompute s).
+Proof.
+  intros G. unfold tcompute. destruct s as [[ph|] fin o r sb lg inn]; cbn [tgen tpstate].
+  - apply (exec_tpstate f ph G (tmk None fin o (S r) sb lg inn)).
+  - reflexivity.
+Qed.
+
+Lemma tstep_tpstate f s o : gen_cls_ok f ->
+  tstep (tpstate f s) o = (tpstate f (fst (tstep s o)), snd (tstep s o)).
+Proof.
+  intros G. destruct o; cbn [tstep]; unfold tread; change (tout (tpstate f s)) with (tout s);
+    try (destruct (tout s); rewrite ?tcomplete_tpstate; reflexivity);
+    try reflexivity;
+    (destruct (tout s); [reflexivity|]; rewrite (tcompute_tpstate f s G);
+     change (tout (tpstate f (tcompute s))) with (tout (tcompute s)); destruct (tout (tcompute s)); reflexivity).
+Qed.
+
+Lemma trun_tpstate f ops : gen_cls_ok f -> forall s,
+  trun (tpstate f s) ops = (tpstate f (fst (trun s ops)), snd (trun s ops)).
+Proof.
+  intros G. induction ops as [|o ops IH]; intros s; cbn [trun]; auto.
+  rewrite tstep_tpstate by exact G. destruct (tstep s o) as [s1 r]. cbn [fst snd]. rewrite IH.
+  destruct (trun s1 ops) as [s2 rs]. reflexivity.
+Qed.
+
+Lemma task_provider_class_irrelevant f ph fin ops : gen_cls_ok f ->
+  run_task ph (recls_pout f fin) ops = run_task ph fin ops.
+Proof.
+  intros G. unfold run_task. change (tinit ph (recls_pout f fin)) with (tpstate f (tinit ph fin)).
+  rewrite trun_tpstate by exact G. destruct (trun (tinit ph fin) ops) as [s rs]. reflexivity.
+Qed.
+
+(* every case of the correspondence: relabel the classes raised by the provider / body / flush body *)
+Definition precls_case (f : xcls -> xcls) (c : anycase) : anycase :=
+  match c with
+  | CFut k p o ops => CFut k (map (recls_pout f) p) o ops
+  | CTask ph fin ops => CTask ph (recls_pout f fin) ops
+  | CBatch its fin ops => CBatch its (recls_pout f fin) ops
+  end.
+
+Definition generator_body (c : anycase) : bool :=
+  match c with CFut KTask _ _ _ | CTask _ _ _ => true | _ => false end.
+
+Lemma any_provider_class_irrelevant f c :
+  (generator_body c = true -> gen_cls_ok f) -> run_any (precls_case f c) = run_any c.
+Proof.
+  intros G. destruct c as [k p o ops|ph fin ops|its fin ops]; cbn [run_any precls_case].
+  - rewrite provider_class_irrelevant; auto. intros ->. apply G. reflexivity.
+  - rewrite task_provider_class_irrelevant; auto.
+  - now rewrite batch_provider_class_irrelevant.
+Qed.
